@@ -85,9 +85,21 @@ def UncovPd (G : MG) (q : Query) (p : List Nat) : Prop :=
   (∀ s, q.second = some s → core[1]? = some s) ∧
   (∀ f, q.forbid = some f → core[1]? ≠ some f)
 
-instance (G : MG) (q : Query) (p : List Nat) : Decidable (UncovPd G q p) := by
-  unfold UncovPd
-  cases q.second <;> cases q.forbid <;> simp only [reduceCtorEq, false_imp_iff, implies_true, Option.some.injEq, forall_eq'] <;> infer_instance
+/-- the specification as a `Bool` function (its own decision procedure) -/
+def uncovPdB (G : MG) (q : Query) (p : List Nat) : Bool :=
+  let k := q.first.toList.length
+  let core := p.drop k
+  (p.take k == q.first.toList) && (core.head? == some q.u) && (core.getLast? == some q.c) &&
+  decide (2 ≤ core.length) && decide p.Nodup && chainB (pdEdge G q.fc) core && unsh G p &&
+  (match q.second with | some s => core[1]? == some s | none => true) &&
+  (match q.forbid with | some f => core[1]? != some f | none => true)
+
+theorem uncovPdB_iff (G : MG) (q : Query) (p : List Nat) : uncovPdB G q p = true ↔ UncovPd G q p := by
+  unfold uncovPdB UncovPd
+  cases q.second <;> cases q.forbid <;> simp [and_assoc]
+
+instance (G : MG) (q : Query) (p : List Nat) : Decidable (UncovPd G q p) :=
+  decidable_of_iff _ (uncovPdB_iff G q p)
 
 /-! ## discriminating path -/
 
@@ -112,9 +124,18 @@ def DiscPathP (G : MG) (par : Nat → Bool) (u a c : Nat) (p : List Nat) : Prop 
   innerColl G par p.dropLast = true ∧
   (∀ v, p.head? = some v → adj G v c = false)
 
-instance (G : MG) (par : Nat → Bool) (u a c : Nat) (p : List Nat) : Decidable (DiscPathP G par u a c p) := by
-  unfold DiscPathP
-  cases p.head? <;> simp only [reduceCtorEq, false_imp_iff, implies_true, Option.some.injEq, forall_eq'] <;> infer_instance
+def discPathPB (G : MG) (par : Nat → Bool) (u a c : Nat) (p : List Nat) : Bool :=
+  decide (4 ≤ p.length) && decide p.Nodup && (p.getLast? == some c) && (p.dropLast.getLast? == some u) &&
+  (p.dropLast.dropLast.getLast? == some a) && chainB (adj G) p && innerColl G par p.dropLast &&
+  (match p.head? with | some v => !adj G v c | none => true)
+
+theorem discPathPB_iff (G : MG) (par : Nat → Bool) (u a c : Nat) (p : List Nat) :
+    discPathPB G par u a c p = true ↔ DiscPathP G par u a c p := by
+  unfold discPathPB DiscPathP
+  cases p.head? <;> simp [and_assoc]
+
+instance (G : MG) (par : Nat → Bool) (u a c : Nat) (p : List Nat) : Decidable (DiscPathP G par u a c p) :=
+  decidable_of_iff _ (discPathPB_iff G par u a c p)
 
 /-- **discriminating path for `u`**: every node between `v` and `u` is a collider on the path and a
     parent of `c` -/
